@@ -219,9 +219,52 @@ pub(crate) struct LocalNode {
 
     /// Thread local data for the helping strategy.
     helping: HelpingLocal,
+
+    /// How many users of this local node are active on this thread right now.
+    ///
+    /// They nest ‒ a writer that helps a reader performs a load from inside its own use.
+    active: Cell<usize>,
+
+    /// The generation of the helping strategy wrapped around and the node shall be given up (sent
+    /// to cooldown) once the outermost user on this thread is done with it.
+    discard: Cell<bool>,
 }
 
 impl LocalNode {
+    fn new(node: Option<&'static Node>) -> Self {
+        LocalNode {
+            node: Cell::new(node),
+            fast: FastLocal::default(),
+            helping: HelpingLocal::default(),
+            active: Cell::new(0),
+            discard: Cell::new(false),
+        }
+    }
+
+    /// Runs the closure as one (possibly nested) user of the node.
+    ///
+    /// The node is never taken away from under a running user. If the generation wrapped around
+    /// in the meantime, the node is sent to cooldown when the outermost user finishes (even by
+    /// unwinding).
+    fn run<R, F: FnOnce(&LocalNode) -> R>(&self, f: F) -> R {
+        struct Leave<'a>(&'a LocalNode);
+        impl Drop for Leave<'_> {
+            fn drop(&mut self) {
+                let local = self.0;
+                let active = local.active.get() - 1;
+                local.active.set(active);
+                if active == 0 && local.discard.replace(false) {
+                    if let Some(node) = local.node.take() {
+                        node.start_cooldown();
+                    }
+                }
+            }
+        }
+        self.active.set(self.active.get() + 1);
+        let _leave = Leave(self);
+        f(self)
+    }
+
     #[cfg(not(feature = "experimental-thread-local"))]
     pub(crate) fn with<R, F: FnOnce(&LocalNode) -> R>(f: F) -> R {
         let f = Cell::new(Some(f));
@@ -231,7 +274,7 @@ impl LocalNode {
                     head.node.set(Some(Node::get()));
                 }
                 let f = f.take().unwrap();
-                f(head)
+                head.run(f)
             })
             // During the application shutdown, the thread local storage may be already
             // deallocated. In that case, the above fails but we still need something. So we just
@@ -240,28 +283,20 @@ impl LocalNode {
             // Note that the situation should be very very rare and not happen often, so the slower
             // performance doesn't matter that much.
             .unwrap_or_else(|_| {
-                let tmp_node = LocalNode {
-                    node: Cell::new(Some(Node::get())),
-                    fast: FastLocal::default(),
-                    helping: HelpingLocal::default(),
-                };
+                let tmp_node = LocalNode::new(Some(Node::get()));
                 let f = f.take().unwrap();
-                f(&tmp_node)
+                tmp_node.run(f)
                 // Drop of tmp_node -> sends the node we just used into cooldown.
             })
     }
 
     #[cfg(feature = "experimental-thread-local")]
     pub(crate) fn with<R, F: FnOnce(&LocalNode) -> R>(f: F) -> R {
-        let thread_head = THREAD_HEAD.get_or_init(|| LocalNode {
-            node: Cell::new(None),
-            fast: FastLocal::default(),
-            helping: HelpingLocal::default(),
-        });
+        let thread_head = THREAD_HEAD.get_or_init(|| LocalNode::new(None));
         if thread_head.node.get().is_none() {
             thread_head.node.set(Some(Node::get()));
         }
-        f(&thread_head)
+        thread_head.run(f)
     }
 
     /// Creates a new debt.
@@ -285,8 +320,11 @@ impl LocalNode {
         if discard {
             // Too many generations happened, make sure the writers give the poor node a break for
             // a while so they don't observe the generation wrapping around.
-            node.start_cooldown();
-            self.node.take();
+            //
+            // But not right now ‒ the transaction we have just started (and possibly a writer
+            // further up on the stack of this thread) still needs the node. It is sent to the
+            // cooldown when the outermost user is done with it (see `run`).
+            self.discard.set(true);
         }
         gen
     }
@@ -338,11 +376,7 @@ impl Drop for LocalNode {
 #[cfg(not(feature = "experimental-thread-local"))]
 thread_local! {
     /// A debt node assigned to this thread.
-    static THREAD_HEAD: LocalNode = LocalNode {
-        node: Cell::new(None),
-        fast: FastLocal::default(),
-        helping: HelpingLocal::default(),
-    };
+    static THREAD_HEAD: LocalNode = LocalNode::new(None);
 }
 
 #[cfg(feature = "experimental-thread-local")]
